@@ -39,6 +39,13 @@ def Histogram():
 # The model file imports Gen/HistWrite.lean (column tables of write_to_file, used by C10's theorems); it is
 # regenerated for C09 too so that the Lean project always reflects the tree under test.
 def translate(ctx):
+    regions = translate_write(ctx)
+    if ctx.prop == "C09":       # C10 calls this function too; the filling / scaling core is C09's tie
+        regions = regions + translate_core(ctx)
+    return regions
+
+
+def translate_write(ctx):
     gen = common.LEAN / "SparkxVerif/Gen/HistWrite.lean"
     golden = common.LEAN / "golden/Gen/HistWrite.lean"
     try:
@@ -55,6 +62,36 @@ def translate(ctx):
     ctx.cov["gen_equals_golden"] = golden.exists() and golden.read_text() == text
     if changed:
         ctx.notes.append("Gen/HistWrite.lean regenerated (source differs from last run)")
+    return regions
+
+
+def translate_core(ctx):
+    """Tie T for the filling / scaling core: Gen/HistCore.lean regenerated from the current text of __init__,
+    add_value, add_histogram, scale_histogram, statistical_error, make_density and the geometry getters
+    (harness/translate/histcore.py); Lemmas/HistCoreGen.lean proves it equal to Core/Histogram.lean."""
+    from translate import histcore
+    gen = common.LEAN / "SparkxVerif/Gen/HistCore.lean"
+    golden = common.LEAN / "golden/Gen/HistCore.lean"
+    try:
+        text, regions, notes = histcore.render(common.read_src("Histogram.py"))
+    except (Untranslatable, SyntaxError) as e:
+        # DESIGN 2.1 (i): the source has left the fragment the extractor understands -> the golden definitions (proved
+        # equal to the hand model) take over; the correspondence carries the tie alone and runs with the thorough counts
+        common.write_if_changed(gen, golden.read_text())
+        ctx.fallback = True
+        ctx.notes.append(f"translator could not re-derive the filling/scaling core ({e}); golden Gen/HistCore.lean used")
+        ctx.cov["tie"] = "correspondence-only (translator could not re-derive: %s)" % str(e)[:300]
+        ctx.cov["core_gen_equals_golden"] = True
+        return [dict(file="src/sparkx/Histogram.py", what="Histogram filling/scaling core", hash=None,
+                     untranslatable=str(e))]
+    changed = common.write_if_changed(gen, text)
+    same = golden.exists() and golden.read_text() == text
+    ctx.cov["core_gen_equals_golden"] = same
+    ctx.cov["gen_equals_golden"] = bool(ctx.cov.get("gen_equals_golden")) and same
+    ctx.cov["translator_not_modelled"] = notes
+    ctx.cov.setdefault("tie", "translator + correspondence")
+    if changed:
+        ctx.notes.append("Gen/HistCore.lean regenerated (source differs from last run)")
     return regions
 
 
@@ -574,7 +611,8 @@ def observe(h):
                 hist=arr(h.histogram()), raw=arr(h.histogram_raw_counts()), err=arr(h.standard_error()),
                 scal=arr(h.scaling_), sys=arr(h.systematic_error_),
                 centers=[float(x) for x in h.bin_centers()], widths=[float(x) for x in h.bin_width()],
-                left=[float(x) for x in h.bin_bounds_left()], right=[float(x) for x in h.bin_bounds_right()])
+                left=[float(x) for x in h.bin_bounds_left()], right=[float(x) for x in h.bin_bounds_right()],
+                bounds=[float(x) for x in h.bin_boundaries()])
 
 
 LIST_REPS = ("float", "int", "mixed", "np", "npint")
@@ -672,13 +710,19 @@ def parse_obs(s):
                 one_empty = hd == "" and not (rows and len(rows[0]) == 0)
                 blocks.append(([""] if one_empty else [bytes.fromhex(c).decode() for c in hd.split(";")], rows))
         return ("ok", blocks)
-    return (p[0], dict(nb=int(p[1]), nh=int(p[2]), edges=_pf(p[3]), hist=_parr(p[4]), raw=_parr(p[5]),
-                       err=_parr(p[6]), scal=_parr(p[7]), sys=_parr(p[8]), centers=_pf(p[9]), widths=_pf(p[10])))
+    d = dict(nb=int(p[1]), nh=int(p[2]), edges=_pf(p[3]), hist=_parr(p[4]), raw=_parr(p[5]),
+             err=_parr(p[6]), scal=_parr(p[7]), sys=_parr(p[8]), centers=_pf(p[9]), widths=_pf(p[10]))
+    if len(p) >= 14:        # `ghist`: the generated bin_bounds_left / bin_bounds_right / bin_boundaries
+        d.update(left=_pf(p[11]), right=_pf(p[12]), bounds=_pf(p[13]))
+    return (p[0], d)
 
 
 def parse_answer(line):
     if not line.startswith("ok "):
         return None, None
+    if "\t" not in line:        # `ghist`: no specification side
+        body = line[3:]
+        return ([parse_obs(o) for o in body.split("|")] if body else []), None
     body, spec = line[3:].split("\t")
     obs = [parse_obs(o) for o in body.split("|")] if body else []
     sc, sr = spec.split("~")
@@ -744,8 +788,8 @@ def compare_obs(real, model, exact, arrays=("hist", "raw", "err", "scal", "sys")
         return None
     if ro["nb"] != mo["nb"] or ro["nh"] != mo["nh"]:
         return f"(nBins,nHist) {(ro['nb'], ro['nh'])} vs model {(mo['nb'], mo['nh'])}"
-    for k in ("edges", "centers", "widths"):
-        if not vec_eq(ro[k], mo[k], exact):
+    for k in ("edges", "centers", "widths", "left", "right", "bounds"):
+        if k in mo and k in ro and not vec_eq(ro[k], mo[k], exact):
             return f"{k}: {ro[k]} vs model {mo[k]}"
     for k in arrays:
         if not rows_eq(ro[k], mo[k], exact):
@@ -761,17 +805,20 @@ def init_obs(edges):
                 widths=[edges[i + 1] - edges[i] for i in range(nb)])
 
 
-def compare_history(ctor, ops, answer, arrays=("hist", "raw", "err", "scal", "sys")):
+def compare_history(ctor, ops, answer, arrays=("hist", "raw", "err", "scal", "sys"), real_run=None):
     """-> (None | description of first difference, index of the op).  An error-path call ("x", …) is not shown to the
     model: it has to raise and to leave the object in the state the model has after the calls before it."""
     set_precision(ctor)
-    edges0, real = run_real(ctor, ops)
+    edges0, real = real_run if real_run is not None else run_real(ctor, ops)
     obs, spec = parse_answer(answer)
     if obs is None or len(obs) != len([o for o in ops if o[0] not in UNMODELLED]):
         return f"driver answered {answer[:200]}", -1, real, spec
     exact = True
     it = iter(obs)
     last = ("ok", init_obs(edges0))
+    if obs and isinstance(obs[0][1], dict) and "bounds" in obs[0][1]:
+        nb0 = len(edges0) - 1
+        last[1].update(left=list(edges0[:nb0]), right=list(edges0[1:]), bounds=list(edges0))
     for i, (op, r) in enumerate(zip(ops, real)):
         if op[0] == "cp":
             d = f"raised {r[0]}" if r[0] != "ok" else compare_obs(("ok", r[1]), ("ok", last[1]), exact, arrays)
@@ -1136,12 +1183,34 @@ def bin_of(edges, v):
 def oracle_c09(ctor, ops):
     """Replays the history on the real class and checks the property with a reference recount.
     Returns None or (key, what, detail)."""
+    if ctor[0] == "tuple" and not (ctor[1] < ctor[2] and ctor[3] >= 1):
+        # not a binning (empty or reversed range, no bins): the constructor has to refuse it
+        try:
+            h = make_hist(ctor)
+        except Exception:  # noqa: BLE001
+            return None
+        return ("ctor:degenerate-tuple-accepted",
+                f"Histogram(({ctor[1]}, {ctor[2]}, {ctor[3]})) is accepted and gives the edges "
+                f"{[float(x) for x in h.bin_edges_]} ({h.number_of_bins_} bins)", dict(ctor=list(ctor[:4])))
     h = make_hist(ctor)
     set_precision(h)
     edges = [float(x) for x in h.bin_edges_]
     nb = len(edges) - 1
     if any(not (a < b) for a, b in zip(edges, edges[1:])):
         return None  # numpy did not give increasing edges: outside the property's domain
+    if ctor[0] == "tuple":
+        # uniform binning (lo, hi, n): n bins from lo to hi, all of width (hi - lo) / n
+        lo, hi, n = float(ctor[1]), float(ctor[2]), ctor[3]
+        if nb != n or h.number_of_bins_ != n:
+            return ("uniform:bins", f"the binning ({lo}, {hi}, {n}) has {nb} bins (number_of_bins_ = {h.number_of_bins_})",
+                    dict(edges=edges))
+        if edges[0] != lo or edges[-1] != hi:
+            return ("uniform:range", f"the binning ({lo}, {hi}, {n}) runs from {edges[0]} to {edges[-1]}", dict(edges=edges))
+        w = (F(hi) - F(lo)) / n
+        for i in range(nb):
+            if abs(F(edges[i + 1]) - F(edges[i]) - w) > abs(w) * Fraction(1, 10 ** 9) + Fraction(1, 10 ** 300):
+                return ("uniform:width", f"bin {i} of the binning ({lo}, {hi}, {n}) has width {edges[i + 1] - edges[i]}, "
+                        f"not {float(w)}", dict(edges=edges, i=i))
     # geometry
     for i in range(nb):
         if h.bin_bounds_left()[i] != edges[i] or h.bin_bounds_right()[i] != edges[i + 1]:
@@ -1294,6 +1363,11 @@ def oracle_c09(ctor, ops):
             if not exact and abs(tot) <= 1e-9 * max(sum(mag), Fraction(1, 10**300)):
                 return None     # total is zero only up to rounding of an earlier density: outcome not determined
             if tot <= 0:
+                if tot == 0 and any(c != 0 for c in cont):
+                    # mixed-sign weights cancelling to a total of exactly 0 (some bin is negative): like a negative total
+                    # no density exists, and whether the float sum of content/width*width hits 0.0 exactly is a matter of
+                    # rounding (the zero test is ill-conditioned there) -- outcome not determined; stop following
+                    return None
                 if tot == 0 and raised is None:
                     return ("density-zero", "make_density accepted an empty histogram", where)
                 if tot < 0:
@@ -1419,15 +1493,26 @@ def correspond(ctx):
         ops = gen_history_c09(rng, edges)
         cases.append((ctor, edges, ops))
         lines.append(enc_case(edges, ops))
-    outs = common.run_driver("C09", lines)
+    # every case twice: `hist` = the hand model (Core/Histogram.lean), `ghist` = the definitions regenerated from the
+    # current source (Gen/HistCore.lean: generated constructor, methods and geometry getters) -- tie C on top of tie T
+    outs_all = common.run_driver("C09", lines + ["g" + l for l in lines])
+    outs, gouts = outs_all[:len(lines)], outs_all[len(lines):]
     nspec = 0
     ndiff = 0
-    for (ctor, edges, ops), out in zip(cases, outs):
+    ngdiff = 0
+    for (ctor, edges, ops), out, gout in zip(cases, outs, gouts):
         inc = all(a < b for a, b in zip(edges, edges[1:]))
         if not inc:
             ctx.brk("correspondence-broken", f"constructor {ctor} did not give increasing edges {edges}")
             continue
-        diff, at, real, spec = compare_history(ctor, ops, out)
+        real_run = run_real(ctor, ops)
+        diff, at, real, spec = compare_history(ctor, ops, out, real_run=real_run)
+        gdiff, gat, _, _ = compare_history(ctor, ops, gout, real_run=real_run)
+        if gdiff:
+            ngdiff += 1
+            if ngdiff <= 3:
+                ctx.brk("correspondence-broken", f"Histogram history, definitions generated from the source: {gdiff}",
+                        case=dict(ctor=jsonable(ctor), ops=jsonable([o for o in ops]), at=gat))
         kinds = {o[0] for o in ops}
         nontriv = on_edge(ops, edges) and bool(kinds & {"sc", "sl"} or any(o[0] == "fl" and o[2] and o[2][0] == "l" for o in ops))
         canon = (tuple(edges), tuple(enc_op(o) for o in ops))
@@ -1462,6 +1547,61 @@ def correspond(ctx):
                         case=dict(ctor=jsonable(ctor), ops=jsonable([o for o in ops])))
     ctx.cov["spec_side_compared"] = nspec
     ctx.cov["histories_differing"] = ndiff
+    ctx.cov["generated_histories_compared"] = len(cases)
+    ctx.cov["generated_histories_differing"] = ngdiff
+    # the generated tuple constructor (`initTuple`) against the real one: valid and rejected tuples
+    tup = []
+    for _ in range(ctx.n(60, 600)):
+        lo = rng.choice([0.0, -2.5, 1.0, -8.0, 0.125, 1e-3, -1e6])
+        kind = rng.choice(["ok", "ok", "ok", "equal", "swapped", "zero-bins", "negative-bins"])
+        span = rng.choice([1.0, 2.0, 3.0, 0.5, 10.0, 7.0, 1.7, 1e-6, 1e9])
+        n = rng.randint(1, 40)
+        hi = lo + span
+        if kind == "equal":
+            hi = lo
+        elif kind == "swapped":
+            lo, hi = hi, lo
+        elif kind == "zero-bins":
+            n = 0
+        elif kind == "negative-bins":
+            n = -rng.randint(1, 5)
+        tup.append((kind, lo, hi, n))
+    gl = common.run_driver("C09", [f"ginit\t{f2h(a)}\t{f2h(b)}\t{n}" for _, a, b, n in tup])
+    for (kind, a, b, n), out in zip(tup, gl):
+        ctx.case(("ginit", a, b, n), kind != "ok")
+        ctx.count("generated-ctor/" + kind)
+        try:
+            h = Histogram()((a, b, n))
+            robs = ("ok", observe(h))
+        except Exception as e:  # noqa: BLE001
+            robs = ("err:" + EXC_KIND.get(type(e), type(e).__name__), None)
+        if not out.startswith("ok "):
+            ctx.brk("correspondence-broken", f"generated constructor: driver answered {out[:100]} for ({a},{b},{n})")
+            continue
+        body = out[3:]
+        if body.startswith("err:"):
+            bad = None if robs[0] == body else f"outcome {robs[0]} vs generated {body}"
+        else:
+            p = body.split("~")
+            m = dict(nb=int(p[1]), nh=int(p[2]), edges=_pf(p[3]), hist=_parr(p[4]), raw=_parr(p[5]), err=_parr(p[6]),
+                     scal=_parr(p[7]), sys=_parr(p[8]))
+            if robs[0] != "ok":
+                bad = f"outcome {robs[0]} vs generated ok"
+            else:
+                ro = robs[1]
+                bad = None
+                if (ro["nb"], ro["nh"]) != (m["nb"], m["nh"]):
+                    bad = f"(nBins,nHist) {(ro['nb'], ro['nh'])} vs generated {(m['nb'], m['nh'])}"
+                elif len(ro["edges"]) != len(m["edges"]) or not all(
+                        abs(x - y) <= 4e-16 * max(abs(a), abs(b)) for x, y in zip(ro["edges"], m["edges"])):
+                    bad = f"edges {ro['edges']} vs generated {m['edges']}"
+                else:
+                    for k in ("hist", "raw", "err", "scal", "sys"):
+                        if not rows_eq(ro[k], m[k], True):
+                            bad = f"{k}: {ro[k]} vs generated {m[k]}"
+                            break
+        if bad:
+            ctx.brk("correspondence-broken", f"generated constructor on ({a},{b},{n}): {bad}", case=dict(ctor=["tuple", a, b, n]))
     # uniform binnings: np.linspace against the formula of theorem uniform_edges
     lin = []
     for _ in range(ctx.n(40, 400)):
@@ -1510,6 +1650,12 @@ def search(ctx, budget_s):
         ops = gen_history_c09(rng, edges, errors="any")
         if n % 3 == 0:      # make sure filled-then-density histories are frequent
             ops = [o for o in ops if o[0] != "md"] + [("f", (edges[0] + edges[1]) / 2, None, "float"), ("md",)]
+        if n % 25 == 7:     # a tuple that is no binning (hi <= lo, or no bins): has to be refused
+            lo = rng.choice([0.0, -2.5, 1.0, 0.125])
+            hi = lo + rng.choice([1.0, 2.0, 0.5, 7.0])
+            ctor = rng.choice([("tuple", lo, lo, rng.randint(1, 8)), ("tuple", hi, lo, rng.randint(1, 8)),
+                               ("tuple", lo, hi, 0), ("tuple", lo, hi, -rng.randint(1, 4))])
+            ops = []
         r = oracle_c09(ctor, ops)
         n += 1
         ctx.case(("oracle", tuple(edges), tuple(enc_op(o) for o in ops)), on_edge(ops, edges))
